@@ -4,12 +4,15 @@
   access.rs   -> Evenio/Generated/AccessTables.lean  (combine 5x5, negate, clear, positive, var, join 3x3)
   query.rs &c -> Evenio/Generated/Gates.lean         (ReadOnlyQuery / Mutability / Send-Sync gate table)
   src/*.rs    -> Evenio/Generated/Sites.lean         (inventory of unchecked sites and debug assertions)
+  handler.rs  -> Evenio/Generated/HandlerListGen.lean (the FUNCTIONS `HandlerList::{insert, remove}`, translated statement by
+                                                      statement by the Rust -> Lean function translator `tools/rs2lean`;
+                                                      `Evenio/Proofs/HandlerListGen.lean` proves them equal to the hand model)
 
 Each extraction either succeeds (file rewritten, status "extracted") or fails (the committed fallback copy
 `*.lean.fallback` is installed, status "failed: <why>").  Status is written as JSON to stdout / --status.
 The output is plain Lean that a human can diff against the source.
 """
-import json, os, re, sys, hashlib
+import json, os, re, sys, hashlib, shutil, subprocess
 
 REPO = os.environ.get("EVENIO_REPO", "/repo")
 OUT = os.path.join(os.path.dirname(os.path.abspath(__file__)), "..", "lean", "Evenio", "Generated")
@@ -494,13 +497,67 @@ def extract_sites():
     return "\n".join(L) + "\n"
 
 
+# ---- function translator (tools/rs2lean: a Rust binary that parses the source with `syn`) ----
+
+RS2LEAN = os.path.join(os.path.dirname(os.path.abspath(__file__)), "rs2lean")
+# `target-dir` of tools/rs2lean/.cargo/config.toml (git-ignored build cache)
+RS2LEAN_BIN = os.path.join(os.path.dirname(os.path.abspath(__file__)), "..", ".cache", "target_rs2lean", "release", "rs2lean")
+
+
+def rs2lean_binary():
+    """Path of the translator's binary; (re)built offline when it is missing or older than one of its sources."""
+    srcs = [os.path.join(RS2LEAN, "Cargo.toml"), os.path.join(RS2LEAN, ".cargo", "config.toml")]
+    for root, _, fs in os.walk(os.path.join(RS2LEAN, "src")):
+        srcs += [os.path.join(root, f) for f in fs if f.endswith(".rs")]
+    newest = max(os.path.getmtime(f) for f in srcs)
+    if os.path.exists(RS2LEAN_BIN) and os.path.getmtime(RS2LEAN_BIN) >= newest:
+        return RS2LEAN_BIN
+    lock = os.path.join(RS2LEAN, "Cargo.lock")
+    if not os.path.exists(lock):
+        # the versions /repo pins are the ones in the offline registry cache (syn 2.0.119 via evenio_macros)
+        for cand in (os.path.join(REPO, "Cargo.lock"), "/repo/Cargo.lock"):
+            if os.path.exists(cand):
+                shutil.copy(cand, lock)
+                break
+    try:
+        r = subprocess.run(["cargo", "build", "--offline", "--release"], cwd=RS2LEAN, capture_output=True, text=True, timeout=900)
+    except subprocess.TimeoutExpired:
+        raise ExtractError("tools/rs2lean: cargo build timed out")
+    if r.returncode != 0 or not os.path.exists(RS2LEAN_BIN):
+        raise ExtractError("tools/rs2lean does not build: " + " ".join((r.stderr or r.stdout).split())[-300:])
+    os.utime(RS2LEAN_BIN)  # cargo leaves an up-to-date binary untouched
+    return RS2LEAN_BIN
+
+
+def extract_funcs():
+    """`HandlerList::{insert, remove}` of handler.rs as Lean functions over the hand model's `HandlerList ρ` / `Priority`."""
+    src = os.path.join(REPO, "src", "handler.rs")
+    if not os.path.exists(src):
+        raise ExtractError(f"{src} not found")
+    cmd = [rs2lean_binary(), src, "HandlerList", "insert", "remove",
+           "--namespace", "Evenio.Gen.HandlerList",
+           "--self-type", "Evenio.HandlerList ρ", "--tyvar", "ρ",
+           "--type", "HandlerInfoPtr=ρ", "--type", "HandlerPriority=Evenio.Priority",
+           "--label", "src/handler.rs"]
+    try:
+        r = subprocess.run(cmd, capture_output=True, text=True, timeout=120)
+    except subprocess.TimeoutExpired:
+        raise ExtractError("rs2lean timed out")
+    if r.returncode != 0:
+        raise ExtractError(" ".join(r.stderr.split())[-400:] or f"rs2lean: exit code {r.returncode}")
+    if "def insert" not in r.stdout or "def remove" not in r.stdout:
+        raise ExtractError("rs2lean: output without `insert`/`remove`")
+    return r.stdout
+
+
 def main():
     status_path = None
     if "--status" in sys.argv:
         status_path = sys.argv[sys.argv.index("--status") + 1]
     os.makedirs(OUT, exist_ok=True)
     status = {}
-    for name, fn in [("AccessTables", extract_access), ("Gates", extract_gates), ("Sites", extract_sites)]:
+    for name, fn in [("AccessTables", extract_access), ("Gates", extract_gates), ("Sites", extract_sites),
+                     ("HandlerListGen", extract_funcs)]:
         target = os.path.join(OUT, name + ".lean")
         fallback = os.path.join(OUT, name + ".lean.fallback")
         old = open(target).read() if os.path.exists(target) else None
